@@ -275,6 +275,7 @@ func (s *WSim) Directed() {
 	for _, success := range []bool{false, true} {
 		rec, err := s.OpMelt(a, 20, url, lnmodel.PayPlan{Answer: lnmodel.APending, Truth: lnmodel.InFlight})
 		if err == nil && rec != nil && rec.State == "PENDING" {
+			s.OpMeltAgain(rec)
 			s.W.LN.Resolve(s.W.MintByURL(url).Env.Name, rec.Hash, success)
 			s.OpCheckMelt(rec)
 		}
@@ -303,6 +304,18 @@ func (s *WSim) OpMelt(wn *WalletNode, sat uint64, url string, plan lnmodel.PayPl
 	s.logf("%s melt %d (+%d reserve) at %s plan=%v/%v -> %s %s", wn.Name, q.Amount, q.FeeReserve, short(url[7:]), plan.Answer, plan.Truth, rec.State, errS(err))
 	s.done("melt", wn, err)
 	return rec, err
+}
+
+// OpMeltAgain calls Melt once more for a quote whose melt is already under way.
+func (s *WSim) OpMeltAgain(rec *MeltRec) error {
+	res, err := rec.Wallet.Melt(rec.Quote)
+	st := ""
+	if err == nil && res != nil {
+		st = res.State.String()
+	}
+	s.logf("%s melt-again %s (was %s) -> %s %s", rec.Wallet.Name, short(rec.Quote), rec.State, st, errS(err))
+	s.done("melt-again", rec.Wallet, err)
+	return err
 }
 
 func (s *WSim) OpCheckMelt(rec *MeltRec) error {
@@ -446,6 +459,9 @@ func (s *WSim) RandomOp(cfg Cfg) {
 			return
 		}
 		rec := open[s.Rng.Intn(len(open))]
+		if s.Rng.Intn(4) == 0 {
+			s.OpMeltAgain(rec) // an impatient user asks for the same melt again
+		}
 		if s.Rng.Intn(2) == 0 {
 			s.W.LN.Resolve(s.W.MintByURL(rec.MintURL).Env.Name, rec.Hash, s.Rng.Intn(2) == 0)
 		}
